@@ -403,6 +403,26 @@ def sample(ctx, budget=1.0, hint=None, broken=None):
                 continue
             n_eval += 1
             nontriv.add((len(path), closed, tuple(type(s).__name__[0] for s in path), mjs > scale, any(pre.values())))
+            if r.random() < 0.3:
+                # the same smoothing was done before and its RESULT (which belongs to the caller) was edited in place
+                try:
+                    with warnings.catch_warnings():
+                        warnings.simplefilter('ignore')
+                        first_ = S.smoothed_path(path, mjs, tight)
+                        for sg_ in first_:
+                            if any(sg_ is x_ for x_ in path):
+                                continue       # pieces the smoother passed through unchanged ARE the input's objects: not the caller's to edit here
+                            how_ = r.choice(['start', 'end', 'control1', 'none'])
+                            if how_ == 'control1' and hasattr(sg_, 'control1'):
+                                sg_.control1 = sg_.control1 + complex(3, -2) * scale
+                                sg_.control2 = sg_.control2 - complex(1, 4) * scale
+                            elif how_ == 'start':
+                                sg_.start = sg_.start + complex(-2, 5) * scale
+                            elif how_ == 'end':
+                                sg_.end = sg_.end + complex(4, 1) * scale
+                    nontriv.add(('smoothed before, result edited',))
+                except Exception:
+                    pass
             try:
                 with warnings.catch_warnings():
                     warnings.simplefilter('ignore')
@@ -471,7 +491,7 @@ def sample(ctx, budget=1.0, hint=None, broken=None):
     return {'evaluations': n_eval, 'distinct_nontrivial': len(nontriv), 'failures': fails, 'samples': samples,
             'rule': 'random continuous paths of 2..6 Lines/CubicBeziers, open and closed, corner angles 8..172 degrees, some joints already smooth, scales 0.1..10, '
                     'maxjointsize from much shorter to much longer than the segments, tightness 0.2..1.99; checks: continuity, kinks() empty (tol 1e-6), end points / closedness, '
-                    'every sampled point within maxjointsize of the original, smooth joints unchanged, single segment unchanged. distinct = distinct (n, closed, kinds, '
+                    'every sampled point within maxjointsize of the original, smooth joints unchanged, single segment unchanged; 30% of the calls are repeats of a call whose result was edited in place by the caller. distinct = distinct (n, closed, kinds, '
                     'maxjointsize > scale, had smooth joint)'}
 
 
